@@ -447,8 +447,17 @@ def parallelize(  # noqa: C901
         logger.debug('Ending of worker process (pid=%d) log records.', pid)
 
     # Join all the processes.
+    # A process cannot terminate before all its status records have been
+    # written to the pipe of the status queue, which has a limited capacity.
+    # Hence, the status queue needs to be emptied while waiting for the
+    # processes.
     for proc in processes:
-        proc.join()
+        while proc.is_alive():
+            if squeue is not None:
+                while not squeue.empty():
+                    (pid, worker_task_idx) = squeue.get()
+                    sarr[pid]['n_finished_tasks'] = worker_task_idx + 1
+            proc.join(timeout=0.01)
 
     # Order the result lists.
     result_list = []
